@@ -76,6 +76,8 @@ def ev(S, F, x, asg, tabs=None):
         if pl[0] in ("field", "deref", "param", "lv", "local"):
             return ev(S, F, pl, asg, tabs)
         raise Unknown(sym.fmt(n(x)))
+    if k == "table":
+        return ("tab", x[1])
     if k == "index" and x[1][0] == "table":
         arr = tabs(x[1][1]) if tabs else None
         i = ev(S, F, x[2], asg, tabs)
@@ -161,6 +163,28 @@ def ev(S, F, x, asg, tabs=None):
             if path == key or path.endswith(key):
                 return fn(*[ev(S, F, a, asg, tabs) for a in args])
         import re
+        m = re.match(r"^core::num::<impl (u8|u16|u32|u64|usize)>::(checked_add|checked_sub|checked_mul)$", path)
+        if m and len(args) == 2:
+            w = WIDTHS[m.group(1)]
+            a, b = ev(S, F, args[0], asg, tabs), ev(S, F, args[1], asg, tabs)
+            v = {"checked_add": a + b, "checked_sub": a - b, "checked_mul": a * b}[m.group(2)]
+            return ("Some", v) if 0 <= v < (1 << w) else ("None",)
+        if path.endswith("::get") and path.startswith(("core::slice::<impl [T]>", "core::array::")) and len(args) == 2:
+            base = ev(S, F, args[0], asg, tabs)
+            i = ev(S, F, args[1], asg, tabs)
+            if isinstance(base, tuple) and base and base[0] == "tab" and isinstance(i, int):
+                arr = tabs(base[1]) if tabs else None
+                if arr is None:
+                    raise Unknown("table %s" % base[1])
+                return ("Some", arr[i]) if 0 <= i < len(arr) else ("None",)
+            raise Unknown("get on %s" % (base,))
+        if path.endswith("FromResidual<core::option::Option<core::convert::Infallible>>>::from_residual"):
+            return ("None",)
+        if path.endswith("::from_residual") and len(args) == 1:
+            v = ev(S, F, args[0], asg, tabs)
+            if isinstance(v, tuple) and v and v[0] in ("Err", "None"):
+                return v
+            raise Unknown("from_residual of %s" % (v,))
         m = re.match(r"^core::num::<impl (u8|u16|u32|u64|usize)>::(wrapping_add|wrapping_sub|wrapping_mul|wrapping_shr|wrapping_shl|rotate_left|min|max|abs_diff)$", path)
         if m and len(args) == 2:
             w = WIDTHS[m.group(1)]
@@ -237,7 +261,7 @@ def ev(S, F, x, asg, tabs=None):
                     return int(v0[0] == "Err")
             if path.endswith("Try>::branch") and vals and isinstance(vals[0], tuple) and vals[0][0] in ("Ok", "Err", "Some", "None"):
                 v0 = vals[0]
-                return ("adt", "core::ops::ControlFlow::Continue", v0[1]) if v0[0] in ("Ok", "Some") else ("adt", "core::ops::ControlFlow::Break", v0)
+                return ("adt", "core::ops::ControlFlow::Continue", v0[1]) if v0[0] in ("Ok", "Some") else ("adt", "core::ops::ControlFlow::Break", v0 if v0[0] == "Err" else ("None",))
             return ("app", path, tuple(vals)) if len(vals) != 1 else ("app", path, vals[0])
         raise Unknown("call %s" % path)
     if k == "agg":
@@ -258,6 +282,8 @@ def ev(S, F, x, asg, tabs=None):
         v = ev(S, F, x[1], asg, tabs)
         if isinstance(v, tuple) and v and v[0] in ("None", "Some", "Ok", "Err"):
             return {"None": 0, "Some": 1, "Ok": 0, "Err": 1}[v[0]]
+        if isinstance(v, tuple) and v and v[0] == "adt" and v[1].startswith("core::ops::ControlFlow::"):
+            return 0 if v[1].endswith("Continue") else 1
         if isinstance(v, tuple) and v and v[0] == "adt":
             info = S.enums.get(x[1]) if hasattr(S, "enums") else None
             if info:
@@ -274,7 +300,13 @@ def ev(S, F, x, asg, tabs=None):
     if k == "field" and isinstance(x[2], int):
         v = ev(S, F, x[1], asg, tabs)
         if isinstance(v, tuple) and v and v[0] in ("obj", "fld"):
-            return ("fld", v, x[2])
+            fv = ("fld", v, x[2])
+            known = asg.get("fields") or {}
+            return known[fv] if fv in known else fv
+        if x[1][0] == "variant" and isinstance(v, tuple) and v and v[0] == "adt" and v[1].startswith("core::ops::ControlFlow::") and x[2] == 0:
+            if not v[1].endswith("::" + x[1][2]):
+                raise Unknown("payload of %s read as %s" % (v[1], x[1][2]))
+            return v[2]
         if x[1][0] == "variant" and isinstance(v, tuple) and v and v[0] in ("Some", "Ok", "Err") and x[2] == 0:
             if v[0] != x[1][2]:
                 raise Unknown("payload of %s read as %s" % (v[0], x[1][2]))
